@@ -5,7 +5,7 @@ from vf.common import Harness, REPO
 LEVEL = "model_checking"
 TECHNIQUE = ("CBMC bounded symbolic execution of the regex VM one instruction at a time from an arbitrary reachable state: the opcode dispatch of "
              "re.c yr_re_exec (cut mechanically out of the function each run, like the bison actions) for every matching/anchor opcode, "
-             "_yr_re_fiber_sync for the split and jump instructions, _yr_re_fiber_exists; reference = regex semantics of the single instruction")
+             "the verdict handling (`switch (action)`: kill / kill-tail / continue / next), _yr_re_fiber_sync for the split and jump instructions, _yr_re_fiber_exists; reference = regex semantics of the single instruction")
 ASSUMPTIONS = [
     "whole-program symbolic execution of yr_re_exec is intractable (DESIGN P7/P11); the claim is PER INSTRUCTION: every opcode is exact from any state "
     "satisfying the stated loop invariant (0 <= bytes_matched <= max_bytes_matched, multiple of the character size, input = start + k*step); "
@@ -18,7 +18,7 @@ ASSUMPTIONS = [
     "backwards execution is only entered with at least one byte to the right of the start (the atom occurrence), as scan.c does",
 ]
 LEVEL_TEXT = ("Bounded model checking of one VM instruction from an arbitrary state (inductive step): byte predicates, anchors, word boundaries, "
-              "window bound and wide/backwards/nocase/dotall handling of every matching opcode, successor sets and priority order of splits and jumps; fiber de-duplication.")
+              "window bound and wide/backwards/nocase/dotall handling of every matching opcode, what the loop does with each verdict (which fiber is examined next, who leaves the list); successor sets and priority order of splits and jumps; fiber de-duplication.")
 LEVEL_NOTE = "; ".join(ASSUMPTIONS)
 
 
@@ -55,6 +55,12 @@ def gen_step(ctx, outdir):
     # loop tail (informational check that the invariant the harness states is the one the loop maintains)
     if "input += input_incr;" not in tail or "bytes_matched += character_size;" not in tail:
         raise RuntimeError("loop tail of yr_re_exec changed: the harness invariant no longer describes it")
+    a2 = tail.find("switch (action)")
+    if a2 < 0:
+        raise RuntimeError("`switch (action)` of yr_re_exec not found")
+    as0 = tail.index("{", a2)
+    as1 = _match_brace(tail, as0)
+    action_switch = tail[a2:as1 + 1]
     with open(os.path.join(outdir, "re_step.h"), "w") as f:
         f.write("/* cut from libyara/re.c yr_re_exec by vf/props/c03.py - regenerated on every run */\n")
         f.write("static void vf_re_prologue(const uint8_t* input_data, size_t input_forwards_size, size_t input_backwards_size, int flags,\n"
@@ -71,6 +77,11 @@ def gen_step(ctx, outdir):
                 "  ip = fiber->ip;\n  action = ACTION_NONE;\n")
         f.write("  " + switch + "\n")
         f.write("  *action_p = action;\n  return ERROR_SUCCESS;\n#undef fibers\n}\n")
+        f.write("\n/* what yr_re_exec does with the instruction's verdict */\n"
+                "static int vf_re_action(YR_SCAN_CONTEXT* context, RE_FIBER_LIST* vf_fibers_p, RE_FIBER** vf_fiber_p, int action)\n{\n"
+                "#define fibers (*vf_fibers_p)\n  RE_FIBER* fiber = *vf_fiber_p;\n  RE_FIBER* next_fiber;\n")
+        f.write("  " + action_switch + "\n")
+        f.write("  *vf_fiber_p = fiber;\n  return ERROR_SUCCESS;\n#undef fibers\n}\n")
 
 
 CONSUMING = ["ANY", "REPEAT_ANY_GREEDY", "REPEAT_ANY_UNGREEDY", "LITERAL", "NOT_LITERAL", "MASKED_LITERAL", "MASKED_NOT_LITERAL", "CLASS",
@@ -104,6 +115,12 @@ def harnesses(ctx, tier):
                               bounds="fiber stack depth <= 3, repeat min/max <= 3..4 symbolic, optional neighbour fibers before/after, jump/split target enumerated",
                               functions=["_yr_re_fiber_sync", "_yr_re_fiber_split", "_yr_re_fiber_kill", "_yr_re_fiber_create"],
                               stubs=["fiber pool pre-populated from a static array"]))
+    for act in ("ACTION_NONE", "ACTION_CONTINUE", "ACTION_KILL", "ACTION_KILL_TAIL"):
+        for nxt in ("ANY", "SPLIT_A"):
+            hs.append(Harness(name="H4_action_%s_next_%s" % (act[7:], nxt), src="c03/re_action.c", gen=gen_step,
+                              defines=SCALE + ["-DVF_ACTION=" + act, "-DVF_NEXT_%s=1" % nxt], unwind=7, timeout=300, unwind_funcs={"fill_code": 34, "rec:_yr_re_fiber_sync": 2},
+                              desc="what yr_re_exec does with an instruction's verdict %s when the fiber's next instruction is %s: which fiber is examined next, list order, pool accounting" % (act, nxt),
+                              bounds="list [A, F, B]; fiber state symbolic (stack depth <= 3)", functions=["yr_re_exec (`switch (action)`, cut)", "_yr_re_fiber_sync", "_yr_re_fiber_kill", "_yr_re_fiber_kill_tail"]))
     hs.append(Harness(name="H3_fiber_exists", src="c03/re_exists.c", defines=SCALE, unwind=6, timeout=300,
                       desc="_yr_re_fiber_exists: a fiber is a duplicate iff an EARLIER fiber (up to `last`) has the same ip, sp, rc and live stack slots",
                       bounds="3 fibers, stack depth <= 3", functions=["_yr_re_fiber_exists"]))
